@@ -359,6 +359,28 @@ pub fn run(a: &Args) {
     let only = a.get("only").unwrap_or("all").to_string();
     let want = |s: &str| only == "all" || only.split(',').any(|x| x == s);
 
+    // (0) histories of clients with different timeouts, first thing in the process (nothing cached yet):
+    //     a client without timeout, then a short-timeout client against a stalled server; a short-timeout client,
+    //     then a long-timeout client against a slow but complete answer; timeouts of 0 and 1 ms against a stall
+    if want("order") {
+        for kind in ["blocking", "async"] {
+            let id = next_rid();
+            cx.exchange("timeout history: no timeout, quick server", vec![(id, kind, targets4[0].clone(), Cfg { timeout_ms: None, ..cfgs[0].clone() }, vec![], 1)], vec![mk_plan(id, "length", 200, None, false, 0, 1, 3)], None, false);
+            let id = next_rid();
+            cx.exchange("timeout history: then 300 ms against a stalled server", vec![(id, kind, targets4[0].clone(), Cfg { timeout_ms: Some(300), ..cfgs[0].clone() }, vec![], 1)], vec![mk_plan(id, "length", 200, None, true, 0, 1, 3)], None, false);
+            let id = next_rid();
+            cx.exchange("timeout history: 400 ms, quick server", vec![(id, kind, targets4[1].clone(), Cfg { timeout_ms: Some(400), ..cfgs[1].clone() }, vec![], 1)], vec![mk_plan(id, "chunked", 200, None, false, 0, 1, 3)], None, false);
+            let id = next_rid();
+            let mut slow = mk_plan(id, "chunked", 200, None, false, 0, 2, 0);
+            slow.script.frag = (slow.script.body.len() / 8).max(1);
+            slow.script.drip_ms = 110; // about 0.9 s in total: longer than 400 ms, far shorter than 9 s
+            cx.exchange("timeout history: then 9 s against a slow but complete answer", vec![(id, kind, targets4[1].clone(), Cfg { timeout_ms: Some(9000), ..cfgs[1].clone() }, vec![], 2)], vec![slow], None, false);
+            for t in [0u64, 1] {
+                let id = next_rid();
+                cx.exchange("zero / tiny timeout against a stalled server", vec![(id, kind, targets4[2].clone(), Cfg { timeout_ms: Some(t), ..cfgs[0].clone() }, vec![], 1)], vec![mk_plan(id, "length", 200, None, true, 0, 1, 3)], None, false);
+            }
+        }
+    }
     // (A, F) behaviours enumerated by TLC
     if want("tlc") {
         if let Some(p) = a.get("cases") {
